@@ -557,12 +557,18 @@ class Packet(object):
         if key and hdr.pkt_type not in (PacketType.CLIENT_HELLO, PacketType.SERVER_HELLO):
             # packet is encrypted, decrypt using the given key
             length += PacketHeader.TAG_SIZE
+            # nothing may follow the authentication tag: bytes appended to a
+            # genuine datagram would be neither authenticated nor rejected
+            if length != len(datagram):
+                raise PacketError("length error")
             iv = datagram[:PacketHeader.IV_SIZE]
             aad = datagram[:PacketHeader.SIZE]
             data = datagram[PacketHeader.SIZE:length]
             pkt.msg = crypto.decrypt_gcm(key, iv, aad, data)
         else:
             # packet is not encrypted: validate the crc
+            if length + PacketHeader.CRC_SIZE != len(datagram):
+                raise PacketError("length error")
             data = datagram[:length]
             crc_actual = crypto.crc32(data)
             crc_expected, = struct.unpack(">L", datagram[length:length+PacketHeader.CRC_SIZE])
